@@ -65,7 +65,7 @@ class Ctx:
         self.violations.append(Violation(kind, detail, cases, obs, sig))
 
     # ---- evaluation helpers -------------------------------------------------------------------
-    def check_absolute(self, cases, res, skip=("bufstate", "text"), sigfn=None):
+    def check_absolute(self, cases, res, skip=("bufstate", "text"), sigfn=None, project=None):
         """per line: implementation vs spec (the property's predicate) and vs the impl-mirror model
         (correspondence)."""
         for c in cases:
@@ -79,6 +79,9 @@ class Ctx:
                 hi = h[i] if i < len(h) else None
                 mi = m[i] if i < len(m) else None
                 si = s[i] if i < len(s) else None
+                if project is not None:
+                    # compare only the observable the property speaks about
+                    hi, mi, si = project(hi), project(mi), project(si)
                 if mi == "bad-op" or si == "bad-op" or (mi or "").startswith("bad-case"):
                     self.violation("infrastructure", f"model rejected op {i}: {op!r} (m={mi!r}, s={si!r})", [c],
                                    {"H": h, "impl": m, "spec": s})
@@ -126,3 +129,15 @@ def outs(obs, idxs=None):
 def payload(line):
     t = line.split()
     return unhx(t[1]) if len(t) > 1 else b""
+
+
+def kinds_only(l):
+    """projection used by the properties that speak about outcomes, not about the bytes produced:
+    `out <hex>` -> `out`, `state <hex>` -> `state`; error lines keep the buffer they report."""
+    if l is None:
+        return None
+    if l.startswith("out "):
+        return "out"
+    if l.startswith("state "):
+        return "state"
+    return l
